@@ -37,7 +37,8 @@ function mkData() {
   }
 }
 
-const STEPS = [{ sel: 'b', tk: 'c', t: false, f: true }, { sel: 'a', tk: 'b', kx: 'y', ky: 'x' }, { tk: 'a', t: true, f: false, i0: 1, i1: 0 }, { 'keys.l': ['x', 'y'], sel: 'b', t: false, f: true }]
+// (the single-field steps are served by the binding map where the template allows it: its updaters must hand over the same paths)
+const STEPS = [{ sel: 'b', tk: 'c', t: false, f: true }, { t: true }, { sel: 'a', tk: 'b', kx: 'y', ky: 'x' }, { f: false }, { kx: 'x' }, { tk: 'a', t: true, f: false, i0: 1, i1: 0 }, { i0: 0 }, { 'keys.l': ['x', 'y'], sel: 'b', t: false, f: true }, { t: true }, { f: false }, { t: false }]
 const lastPhase = 'after update ' + (STEPS.length - 1)
 
 const MODULE_CODE = (tag) => `function ${tag}_f(){return "${tag}.f"}; function ${tag}_g(){return "${tag}.g"}; module.exports = { f: ${tag}_f, tab: { a: ${tag}_f, b: ${tag}_f, c: ${tag}_g }, o: { g: ${tag}_g, list: [{ h: function ${tag}_h0(){} }, { h: function ${tag}_h1(){} }] }, s: "${tag}.s" }`
@@ -96,13 +97,16 @@ function genBound(rng, roots, modRoots) {
   if (r < 13) return X.cond(X.id(rng.pick(['t', 'f'])), genChain(rng, root, 2), genChain(rng, rng.pick(roots), 2))
   if (r < 14) return X.mem(X.cond(X.id(rng.pick(['t', 'f'])), X.id(root), X.id(rng.pick(roots))), rng.pick(['x', 'y']))
   if (r < 15) {
-    const q = rng.int(6)
+    const q = rng.int(8)
     const tf = () => X.id(rng.pick(['t', 'f']))
     // nested conditionals, also under a member access: every level yields the path of the branch taken (or none)
     if (q === 0) return X.mem(X.cond(tf(), X.cond(tf(), X.id(root), X.id(rng.pick(roots))), X.id(rng.pick(roots))), rng.pick(['x', 'y']))
     if (q === 1) return X.mem(X.cond(tf(), X.cond(tf(), X.id(root), X.num('1')), X.id(rng.pick(roots))), rng.pick(['x', 'y']))
     if (q === 2) return X.idx(X.cond(tf(), X.id(rng.pick(roots)), X.cond(tf(), genChain(rng, root, 1), genNonPath(rng, X.id(root)))), X.id(rng.pick(['kx', 'ky'])))
     if (q === 3) return X.cond(tf(), X.cond(tf(), genChain(rng, root, 1), genChain(rng, rng.pick(roots), 1)), genNonPath(rng, X.id(root)))
+    // a member tail after a conditional whose branch is itself "conditional + member"
+    if (q === 4) return X.mem(X.cond(tf(), X.mem(X.cond(tf(), X.id(root), X.id(rng.pick(roots))), rng.pick(['x', 'y'])), X.id(rng.pick(roots))), rng.pick(['x', 'y', 'k0']))
+    if (q === 5 && rng.bool(0.5)) return X.idx(X.cond(tf(), X.idx(X.cond(tf(), X.id(root), X.num('1')), X.id(rng.pick(['kx', 'ky']))), X.id(rng.pick(roots))), X.str(rng.pick(['x', 'y'])))
     return X.cond(tf(), genChain(rng, root, 1), genNonPath(rng, X.id(root)))
   }
   if (r < 16 && modRoots.length) return X.cond(X.id(rng.pick(['t', 'f'])), X.mem(X.id(modRoots[0]), 'f'), genChain(rng, root, 1))
